@@ -10,17 +10,23 @@ import numpy as np
 from vlib import *
 import simlib
 
-RULE = ('exact stream: single stage, base-stock S in 0..30, shipment lead time L in 0..4, rates k/4, integer demand lists '
-        '(length 6..30, values 0..13) — implementation trajectory vs the pathwise identities of C15_single_stage_pathwise and vs the '
-        'Coq run of NW1; non-trivial = some period with backorders and some with positive stock, L >= 1. '
-        'expectation stream (EXACT, no sampling): i.i.d. demand with 2-3 support points (probabilities k/8 or k/16, offset 0/1/3), L in 1..2: expected period cost by '
+RULE = ('exact stream: single stage, base-stock S in 0..30, shipment lead time 0..4, in half of the cases an additional ORDER lead time 1..3 (L = OLT + SLT), rates k/4, integer demand lists '
+        '(length 6..30, values 0..13) — implementation trajectory vs the pathwise identities of C15_single_stage_pathwise at L = OLT + SLT and vs the '
+        'Coq run of NW1 (OLT = 0) or of the general simulator model with the same configuration (OLT > 0); non-trivial = some period with backorders and some with positive stock, L >= 1. '
+        'expectation stream (EXACT, no sampling): i.i.d. demand with 2-3 support points (probabilities k/8 or k/16, offset 0/1/3), L in 1..2 (in half of the cases partly as order lead time on the implementation side): expected period cost by '
         'enumerating every demand sequence through the implementation vs newsvendor_discrete on lead_time_demand_distribution(L), and both vs the two sides of C15_expected_period_cost evaluated in Coq. '
         'analytic stream (deterministic): newsvendor_poisson/normal cost through both evaluation entry points at levels incl. 0 and negative ones vs direct summation / closed form; '
         'ssm_serial.expected_cost(network=) with arbitrary node labels vs the canonical parameter form. '
+        'serial-object stream (deterministic): serial networks of 2-6 stages with labels 1..N upstream-first / N..1 / 0..N-1 / random, built by serial_system or by network_from_edges with the edges '
+        'listed from the supplier end, the customer end or shuffled (node list then NOT upstream-first): echelon_to_local_base_stock_levels (levels integer or k/4, also non-monotone) vs the S-minus formula, '
+        'argument not modified, local_to_echelon round trip; on 3-4 stage systems additionally 1-2 calls of expected_cost / optimize_base_stock_levels / newsvendor_heuristic with network=net '
+        '(value as with canonical parameters; the caller\'s network — labels, node list, links, costs, lead times, demand, levels — must read the same afterwards), then the converted levels are installed by label on the SAME '
+        'object and it is simulated (20-40 periods, fixed seed) against a freshly built twin with the formula levels: identical trajectories; non-trivial = >= 3 stages and labels not N..1 or node list not upstream-first. '
         'demand-source stream (deterministic): a DemandSource driven through random setter sequences vs a fresh object with the same attributes '
         '(lead-time demand mean / sd / cdf / quantile must be identical). '
         'statistical stream (search only): base-stock single stage L in 1..3 with Poisson / low-variation normal demand (cv 0.05-0.15, levels up to 30% above the mean) vs newsvendor cost of '
-        'L-period demand; serial systems also with normal demand, one re-used DemandSource, echelon levels 1.0-1.5 x the optimum; (s,S) stage with L = 1 vs s_s_cost_discrete (simulated cost + K x order frequency); 2-3 stage serial system '
+        'L-period demand; the same with the lead time split into order lead time 1..2 + shipment lead time 0..2; a 3-stage serial system used as one object (labels not N..1, edges listed from the customer end, '
+        'levels from optimize_base_stock_levels(network=), cost from expected_cost(network=), then conversion and simulation of that object); serial systems also with normal demand, one re-used DemandSource, echelon levels 1.0-1.5 x the optimum; (s,S) stage with L = 1 vs s_s_cost_discrete (simulated cost + K x order frequency); 2-3 stage serial system '
         'with local levels converted from echelon levels vs ssm_serial.expected_cost; batch means, band = 6 standard errors + 0.5% (SSM: 2%) '
         'of the analytical value (per-test false-alarm probability < 2e-9, < 1e-6 over the run).')
 
@@ -28,13 +34,16 @@ RULE = ('exact stream: single stage, base-stock S in 0..30, shipment lead time L
 def single_case(rng):
     T = rng.randint(6, 30); L = rng.randint(0, 4); S = rng.randint(0, 30)
     dl = [rng.choice([0, 1, 2, 3, 5, 8, 13]) for _ in range(T)]
-    node = dict(slt=L, olt=0, pol=['BS', S], cap=None, init_il=None, h=Fraction(rng.randint(1, 12), 4), p=Fraction(rng.randint(0, 80), 4),
+    # the stage's lead time may be split into an order lead time and a shipment lead time (the supplier is the external one, so an order
+    # placed in period t arrives OLT + SLT periods later): the pathwise identities then hold with L = OLT + SLT
+    olt = rng.randint(1, 3) if rng.random() < 0.5 else 0
+    node = dict(slt=L, olt=olt, pol=['BS', S], cap=None, init_il=None, h=Fraction(rng.randint(1, 12), 4), p=Fraction(rng.randint(0, 80), 4),
                 ith=None, rev=Fraction(0), demand=dl, dis=None, init_orders=0, init_ships=0)
     return dict(kind='single', ids=[1], edges=[], T=T, nodes={1: node})
 
 
 def pathwise_oracle(case, recs):
-    nd = case['nodes'][1]; S = Fraction(nd['pol'][1]); L = nd['slt']; h = nd['h']; p = nd['p']; d = nd['demand']
+    nd = case['nodes'][1]; S = Fraction(nd['pol'][1]); L = nd['slt'] + (nd.get('olt') or 0); h = nd['h']; p = nd['p']; d = nd['demand']
     bad = []
     for t, R in enumerate(recs):
         r = R[1]
@@ -49,6 +58,13 @@ def pathwise_oracle(case, recs):
 
 def coq_single(case):
     nd = case['nodes'][1]
+    if nd.get('olt'):
+        # order lead time > 0: not the theorem's network NW1 (which has olt = 0) but the general simulator model with the same configuration
+        cfg = ('{| preds := []; succs := []; ext_sup := true; has_dem := true; slt := %s; olt := %s; pol := BS %s; cap := None; init_il := None; '
+               'hc := %s; pc := %s; ith := None; rev := 0; dtype := None; init_orders := 0; init_ships := 0 |}'
+               % (cnat(nd['slt']), cnat(nd['olt']), cq(nd['pol'][1]), cq(nd['h']), cq(nd['p'])))
+        return ('let NWx := {| nodes := [1%%N]; cfg := fun _ => %s |} in map (fun e => [qobs (gq e (fIL, 1%%N, Ext)); qobs (gq e (fOO, 1%%N, Ext)); qobs (c_tc (node_costs NWx e 1%%N))]) '
+                '(run NWx (mk_inputs (map (fun d => ((fun _ : N => false), d)) %s)))' % (cfg, cqlist(nd['demand'][:case['T']])))
     return ('let NWx := NW1 %s %s %s %s in map (fun e => [qobs (gq e (fIL, 1%%N, Ext)); qobs (gq e (fOO, 1%%N, Ext)); qobs (c_tc (node_costs NWx e 1%%N))]) '
             '(run NWx (mk_inputs (map (fun d => ((fun _ : N => false), d)) %s)))'
             % (cq(nd['pol'][1]), cq(nd['h']), cq(nd['p']), cnat(nd['slt']), cqlist(nd['demand'][:case['T']])))
@@ -104,6 +120,35 @@ def statistical(chk, T, reps):
             return np.array([K if nd.state_vars[t].order_quantity_fg[prod] > 0 else 0.0 for t in range(TT)])
         per = sim_costs(net, T, rng.randint(1, 10 ** 6), extra=fixed)
         judge('sS-poisson', dict(mu=mu, h=h, p=p, K=K, s=s_, S=S_), per, float(s_s_cost_discrete(s_, S_, h, p, K, True, mu)), 0.005)
+        # base-stock single stage whose lead time is split into an ORDER lead time and a shipment lead time (the supplier is external: the
+        # order arrives OLT + SLT periods after it is placed), Poisson or low-variation normal demand, vs the newsvendor cost of (OLT+SLT)-period demand
+        olt = rng.randint(1, 2); slt = rng.randint(0, 2); L = olt + slt; h = rng.choice([1, 2]); p = rng.choice([4, 9, 19])
+        if rng.random() < 0.5:
+            mu = rng.choice([2, 4, 6]); S = int(mu * L + rng.randint(-2, 5))
+            net = single_stage_system(holding_cost=h, stockout_cost=p, shipment_lead_time=slt, order_lead_time=olt, demand_type='P', mean=mu, policy_type='BS', base_stock_level=S)
+            analytic = float(newsvendor_poisson_cost(S, h, p, mu * L)); kind = 'base-stock-poisson-order-lead-time'; params = dict(OLT=olt, SLT=slt, mu=mu, h=h, p=p, S=S)
+        else:
+            mu = rng.choice([20, 50]); sd = mu * rng.choice([0.05, 0.1, 0.15]); S = round(mu * L + rng.choice([-1, 0, 1, 2, 3]) * sd * math.sqrt(L), 2)
+            net = single_stage_system(holding_cost=h, stockout_cost=p, shipment_lead_time=slt, order_lead_time=olt, demand_type='N', mean=mu, standard_deviation=sd, policy_type='BS', base_stock_level=S)
+            analytic = float(newsvendor_normal_cost(S, h, p, mu * L, sd * math.sqrt(L))); kind = 'base-stock-normal-order-lead-time'; params = dict(OLT=olt, SLT=slt, mu=mu, sd=sd, h=h, p=p, S=S)
+        per = sim_costs(net, T, rng.randint(1, 10 ** 6))
+        judge(kind, params, per, analytic, 0.005)
+    # serial system handled as ONE OBJECT, the way a user script does it: labels not N..1, node list not upstream-first (edges written from the customer
+    # end), levels from optimize_base_stock_levels(network=net), analytical cost from expected_cost(S, network=net), THEN conversion and simulation of net itself
+    for _ in range(max(1, reps // 3)):
+        N = 3; scheme = rng.choice(['1..N upstream-first', 'random']); chain = list(range(1, N + 1)) if scheme.startswith('1') else rng.sample(range(1, 10), N)
+        c = dict(build='edges', labels=scheme, chain=chain, edges=[[chain[k], chain[k + 1]] for k in range(N - 2, -1, -1)], he=[rng.choice([1, 2]) for _ in range(N)],
+                 L=[rng.choice([1, 2]) for _ in range(N)], p=rng.choice([8, 15]), mean=rng.choice([3, 5]))
+        net = serial_build(c)
+        S_opt, _ = ssm_serial.optimize_base_stock_levels(network=net)
+        S_ech = {k: int(v) + rng.choice([0, 0, 1, -1]) for k, v in S_opt.items()}
+        for k in range(N - 2, -1, -1): S_ech[chain[k]] = max(S_ech[chain[k]], S_ech[chain[k + 1]])      # local levels >= 0
+        analytic = float(ssm_serial.expected_cost(dict(S_ech), network=net))
+        S_loc = echelon_to_local_base_stock_levels(net, S_ech)
+        for lab in chain:
+            net.nodes_by_index[lab].inventory_policy.base_stock_level = S_loc[lab]
+        per = sim_costs(net, T, rng.randint(1, 10 ** 6))
+        judge('serial-ssm-same-object', dict(c, S_ech=S_ech), per, analytic, 0.02)
     # serial system vs SSM expected cost (fewer: the analytical evaluation is slow); stage 1 is downstream, stage N upstream
     for _ in range(max(1, reps // 2)):
         from stockpyl.demand_source import DemandSource
@@ -174,7 +219,8 @@ def expectation_stream(chk, n):
         if min(w) < 1: w = [tot // m] * m; w[-1] += tot - sum(w)
         pm = [Fraction(x, tot) for x in w]
         S = rng.randint(max(0, L * off - 1), L * (off + m - 1) + 2)
-        cases.append(dict(stream='expectation', m=m, off=off, L=L, T=T, t=t, pm=pm, S=S, h=Fraction(rng.randint(1, 12), 4), p=Fraction(rng.randint(0, 80), 4)))
+        olt = rng.randint(1, L) if rng.random() < 0.5 else 0        # part of the lead time L as ORDER lead time (implementation side only: the law depends on OLT + SLT)
+        cases.append(dict(stream='expectation', m=m, off=off, L=L, olt=olt, T=T, t=t, pm=pm, S=S, h=Fraction(rng.randint(1, 12), 4), p=Fraction(rng.randint(0, 80), 4)))
     exprs = []
     for c in cases:
         dss = '[' + '; '.join(['(fun _ : N => false)'] * c['T']) + ']'
@@ -194,7 +240,7 @@ def expectation_stream(chk, n):
             for seq in itertools.product(range(c['m']), repeat=c['T']):
                 pr = Fraction(1)
                 for j in seq: pr *= c['pm'][j]
-                node = dict(slt=c['L'], olt=0, pol=['BS', c['S']], cap=None, init_il=None, h=c['h'], p=c['p'], ith=None, rev=Fraction(0),
+                node = dict(slt=c['L'] - c['olt'], olt=c['olt'], pol=['BS', c['S']], cap=None, init_il=None, h=c['h'], p=c['p'], ith=None, rev=Fraction(0),
                             demand=[vals_[j] for j in seq], dis=None, init_orders=0, init_ships=0)
                 r = simlib.run_impl(dict(kind='single', ids=[1], edges=[], T=c['T'], nodes={1: node}))
                 exp += pr * r['recs'][c['t']][1]['TC']
@@ -205,8 +251,8 @@ def expectation_stream(chk, n):
             chk.fail('long-run|expected-cost|raises-%s' % exc_kind(e), '%s: %s' % (type(e).__name__, str(e)[:200]), c); chk.case(c, False); continue
         if not close(exp, F(an)):
             chk.fail('long-run|expected-cost|enumeration-vs-newsvendor_discrete',
-                     'i.i.d. demand %s w.p. %s, L=%d, S=%d, h=%s, p=%s: expected period-%d cost over all %d demand sequences (implementation runs) = %s but newsvendor_discrete on the lead-time pmf gives %r'
-                     % (vals_, [str(x) for x in c['pm']], c['L'], c['S'], c['h'], c['p'], c['t'], c['m'] ** c['T'], float(exp), an), c)
+                     'i.i.d. demand %s w.p. %s, L=%d (order lead time %d + shipment lead time %d), S=%d, h=%s, p=%s: expected period-%d cost over all %d demand sequences (implementation runs) = %s but newsvendor_discrete on the lead-time pmf gives %r'
+                     % (vals_, [str(x) for x in c['pm']], c['L'], c['olt'], c['L'] - c['olt'], c['S'], c['h'], c['p'], c['t'], c['m'] ** c['T'], float(exp), an), c)
         if vals is not None:
             chk.traces += 1
             me, mn = qv(vals[i][0]), qv(vals[i][1])
@@ -214,7 +260,7 @@ def expectation_stream(chk, n):
                 chk.mismatch('expectation over all demand sequences: simulator model %s vs implementation runs %s' % (me, exp), c)
             if not close(mn, F(an)):
                 chk.mismatch('nvd_cost of the convolved pmf %s vs newsvendor_discrete on lead_time_demand_distribution %r' % (mn, an), c)
-        chk.count('expectation:L=%d' % c['L']); chk.count('expectation:support=%d' % c['m'])
+        chk.count('expectation:L=%d' % c['L']); chk.count('expectation:order-lead-time=%d' % c['olt']); chk.count('expectation:support=%d' % c['m'])
         chk.case(c, 0 < c['S'] - c['L'] * c['off'] < c['L'] * (c['m'] - 1))
 
 
@@ -281,6 +327,167 @@ def analytic_stream(chk, n):
             chk.fail('long-run|analytical-cost|ssm expected_cost(network=)|depends-on-node-labels', 'expected_cost with the network labelled %s (upstream first) = %r, with canonical parameters = %r; %r' % (labels, got, want, params),
                      dict(stream='analytic', params=params))
         chk.count('analytic:ssm-network-labels'); chk.case(dict(stream='analytic', params=params), True)
+
+
+# ------------------------------------------------------------------------------------------------
+# serial systems handled as OBJECTS: arbitrary labels, node list in any order, the same object used for the analytical cost, the
+# conversion of the levels and the simulation
+
+def serial_build(c):
+    """the serial network of case c. chain = labels upstream -> downstream; attributes by position (upstream first).
+    build 'serial': serial_system (node list = chain); build 'edges': network_from_edges with the edges in the order c['edges']
+    (the node list then follows the order in which the labels appear in the edge list)."""
+    from stockpyl.supply_chain_network import serial_system, network_from_edges
+    from stockpyl.demand_source import DemandSource
+    chain = [int(x) for x in c['chain']]; N = len(chain); he = c['he']
+    kw = dict(local_holding_cost=[sum(he[:k + 1]) for k in range(N)], echelon_holding_cost=list(he), stockout_cost=[0] * (N - 1) + [c['p']],
+              shipment_lead_time=list(c['L']), policy_type='BS', base_stock_level=[0] * N)
+    if c['build'] == 'serial':
+        return serial_system(N, node_order_in_system=chain, node_order_in_lists=chain, demand_type='P', mean=c['mean'], **kw)
+    return network_from_edges([tuple(int(x) for x in e) for e in c['edges']], node_order_in_lists=chain,
+                              demand_source=[None] * (N - 1) + [DemandSource(type='P', mean=c['mean'])], **kw)
+
+
+def serial_fingerprint(net):
+    """what a caller can see of a serial network: node list, labels, links, the data the SSM and the simulator read"""
+    out = []
+    for n in net.nodes:
+        ds = n.demand_source
+        out.append((n.index, list(n.predecessor_indices()), list(n.successor_indices()), n.local_holding_cost, n.echelon_holding_cost, n.shipment_lead_time,
+                    n.stockout_cost, (ds.type, ds.mean) if ds is not None and ds.type is not None else None,
+                    n.inventory_policy.base_stock_level if n.inventory_policy is not None else None, net.nodes_by_index.get(n.index) is n))
+    return out
+
+
+def chain_of(net):
+    """node objects from the source to the sink, found by walking the links (independent of labels and of the node list)"""
+    n = net.source_nodes[0]; out = []
+    while n is not None and len(out) <= len(net.nodes):
+        out.append(n); n = n.get_one_successor()
+    return out
+
+
+def local_levels_formula(chain, S):
+    """local levels of echelon levels S (by label) on the chain (upstream first): with S-minus_j = min of the echelon levels of stage j and of every
+    stage upstream of it, local_j = S-minus_j - S-minus_(successor of j), local_sink = S-minus_sink"""
+    N = len(chain); sm = [min(Fraction(S[chain[i]]) for i in range(k + 1)) for k in range(N)]
+    return {chain[k]: (sm[k] - sm[k + 1] if k < N - 1 else sm[k]) for k in range(N)}, {chain[k]: sm[k] for k in range(N)}
+
+
+def serial_object_oracle(c):
+    """returns [(signature, what)]; deterministic (Poisson demand of the simulation runs under a fixed seed on both objects)"""
+    from stockpyl import ssm_serial
+    from stockpyl.demand_source import DemandSource
+    from stockpyl.supply_chain_network import echelon_to_local_base_stock_levels, local_to_echelon_base_stock_levels
+    import stockpyl.sim as sim
+    bad = []
+    chain = [int(x) for x in c['chain']]; N = len(chain); S = {int(k): v for k, v in c['S_ech'].items()}
+    net = serial_build(c)
+    listing = 'upstream-first' if [n.index for n in net.nodes] == chain else 'not-upstream-first'
+    shape = 'N=%s|node-list-%s' % (N if N < 3 else '>=3', listing)
+    fp0 = serial_fingerprint(net)
+    canon = dict(num_nodes=N, echelon_holding_cost={N - k: c['he'][k] for k in range(N)}, lead_time={N - k: c['L'][k] for k in range(N)}, stockout_cost=c['p'])
+    # (1) the analytical entry points with the network given as an object: value as with the canonical parameters, caller's object untouched
+    for api in c.get('calls') or []:
+        try:
+            if api == 'expected_cost':
+                got = float(ssm_serial.expected_cost(dict(S), network=net))
+                want = float(ssm_serial.expected_cost({N - k: S[chain[k]] for k in range(N)}, demand_source=DemandSource(type='P', mean=c['mean']), **canon))
+                same = close(got, want, 1e-9, 1e-9)
+            elif api == 'optimize_base_stock_levels':
+                gS, gC = ssm_serial.optimize_base_stock_levels(network=net)
+                wS, wC = ssm_serial.optimize_base_stock_levels(demand_source=DemandSource(type='P', mean=c['mean']), **canon)
+                got = ({k: float(v) for k, v in gS.items()}, float(gC)); want = ({chain[k]: float(wS[N - k]) for k in range(N)}, float(wC))
+                same = got[0] == want[0] and close(got[1], want[1], 1e-9, 1e-9)
+            else:
+                gS = ssm_serial.newsvendor_heuristic(network=net)
+                wS = ssm_serial.newsvendor_heuristic(demand_source=DemandSource(type='P', mean=c['mean']), **canon)
+                got = {k: float(v) for k, v in gS.items()}; want = {chain[k]: float(wS[N - k]) for k in range(N)}
+                same = sorted(got) == sorted(want) and all(close(got[k], want[k], 1e-9, 1e-9) for k in got)
+            if not same:
+                bad.append(('long-run|analytical-cost|ssm %s(network=)|depends-on-node-labels' % api,
+                            '%s with the network labelled %s (upstream first), node list %s = %r, with canonical parameters (relabelled) = %r' % (api, chain, [x[0] for x in fp0], got, want)))
+        except Exception as e:
+            bad.append(('long-run|analytical-cost|ssm %s(network=)|raises-%s' % (api, exc_kind(e)), '%s: %s' % (type(e).__name__, str(e)[:200])))
+        fp1 = serial_fingerprint(net)
+        if fp1 != fp0:
+            bad.append(("ssm_serial.%s(network=)|modifies-the-caller's-network" % api,
+                        'network labelled %s (upstream first): after %s(network=net) the caller\'s object reads (label, predecessors, successors, h, echelon h, L, p, demand, level, registered) = %r, before the call %r'
+                        % (chain, api, fp1, fp0)))
+            break
+    # (2) conversion of the echelon levels against the formula, on the same object
+    want_loc, s_minus = local_levels_formula(chain, S)
+    got_loc = None
+    try:
+        S_in = dict(S); got_loc = echelon_to_local_base_stock_levels(net, S_in)
+        if S_in != S:
+            bad.append(('echelon_to_local_base_stock_levels|modifies-its-argument', 'the dict of echelon levels %r reads %r after the call' % (S, S_in)))
+        if sorted(got_loc) != sorted(want_loc) or any(F(got_loc[k]) != want_loc[k] for k in want_loc):
+            bad.append(('echelon_to_local_base_stock_levels|%s' % shape,
+                        'chain %s (upstream first), node list %s, echelon levels %r: local levels %r but S-minus_j - S-minus_successor gives %r'
+                        % (chain, [n.index for n in net.nodes], S, jsonable(got_loc), jsonable(want_loc))))
+        back = local_to_echelon_base_stock_levels(net, dict(got_loc))
+        if any(F(back[k]) != s_minus[k] for k in s_minus):
+            bad.append(('local_to_echelon_base_stock_levels|round-trip|%s' % shape,
+                        'chain %s, node list %s, echelon levels %r -> local %r -> echelon %r, expected the S-minus levels %r'
+                        % (chain, [n.index for n in net.nodes], S, jsonable(got_loc), jsonable(back), jsonable(s_minus))))
+    except Exception as e:
+        bad.append(('echelon_to_local_base_stock_levels|raises-%s' % exc_kind(e), '%s: %s (chain %s)' % (type(e).__name__, str(e)[:200], chain)))
+    # (3) the same object, with the converted levels installed by label, simulated against a freshly built twin that was never handed to ssm_serial
+    if c.get('T') and got_loc is not None:
+        try:
+            twin = serial_build(c)
+            for lab in chain:
+                net.nodes_by_index[lab].inventory_policy.base_stock_level = float(got_loc[lab])
+                twin.nodes_by_index[lab].inventory_policy.base_stock_level = float(want_loc[lab])
+            traj = []
+            for w in (net, twin):
+                sim.issued_backorder_warning = False
+                with warnings.catch_warnings():
+                    warnings.simplefilter('ignore')
+                    sim.simulation(w, c['T'], rand_seed=c['seed'], progress_bar=False, consistency_checks='N')
+                ch = chain_of(w)
+                traj.append([[float(n.state_vars[t].total_cost_incurred) for n in ch] + [float(n.state_vars[t].inventory_level[n.product_indices[0]]) for n in ch] for t in range(c['T'])])
+            if traj[0] != traj[1]:
+                t = next(i for i in range(c['T']) if traj[0][i] != traj[1][i])
+                bad.append(('simulation of a network after ssm_serial calls and level conversion on it|trajectory-differs-from-fresh-network|%s' % shape,
+                            'chain %s, calls %s, echelon levels %r: period %d (cost per stage, then IL per stage, upstream first) = %r on the object used for the analytical calls and the conversion, %r on a fresh network with the local levels %r'
+                            % (chain, c.get('calls'), S, t, traj[0][t], traj[1][t], jsonable(want_loc))))
+        except Exception as e:
+            bad.append(('simulation of a network after ssm_serial calls and level conversion on it|raises-%s' % exc_kind(e), '%s: %s (chain %s, calls %s)' % (type(e).__name__, str(e)[:200], chain, c.get('calls'))))
+    return bad, listing
+
+
+def serial_object_case(rng, full):
+    """full: analytical calls + simulation on the same object (3-4 stages); otherwise conversion only (2-6 stages, levels not necessarily monotone)"""
+    N = rng.choice([3, 3, 4]) if full else rng.randint(2, 6)
+    scheme = rng.choice(['1..N upstream-first', 'N..1', '0..N-1', 'random'])
+    chain = {'1..N upstream-first': list(range(1, N + 1)), 'N..1': list(range(N, 0, -1)), '0..N-1': rng.sample(range(N), N), 'random': rng.sample(range(1, 12), N)}[scheme]
+    edges = [[chain[k], chain[k + 1]] for k in range(N - 1)]
+    how = rng.choice(['supplier-end', 'customer-end', 'shuffled'])
+    if how == 'customer-end': edges.reverse()
+    elif how == 'shuffled': rng.shuffle(edges)
+    build = rng.choice(['serial', 'edges', 'edges'])
+    if full:
+        lv = sorted([rng.randint(2, 6) + 3 * k for k in range(N)], reverse=True)      # echelon levels, upstream first (largest)
+    else:
+        lv = sorted([rng.choice([rng.randint(0, 40), rng.randint(0, 160) / 4]) for _ in range(N)], reverse=True)
+        if rng.random() < 0.4: rng.shuffle(lv)                                          # not monotone: the S-minus step matters
+    c = dict(stream='serial-object', build=build, labels=scheme, edge_order=how, chain=chain, edges=edges, he=[rng.choice([1, 2]) for _ in range(N)],
+             L=[rng.choice([1, 2]) for _ in range(N)], p=rng.choice([8, 15]), mean=rng.choice([2, 3]), S_ech={chain[k]: lv[k] for k in range(N)})
+    if full:
+        apis = ['expected_cost', 'optimize_base_stock_levels', 'newsvendor_heuristic']
+        c.update(calls=[rng.choice(apis) for _ in range(rng.randint(1, 2))], T=rng.randint(20, 40), seed=rng.randint(1, 10 ** 6))
+    return c
+
+
+def serial_object_stream(chk, n_full, n_conv):
+    for c in [serial_object_case(chk.rng, True) for _ in range(n_full)] + [serial_object_case(chk.rng, False) for _ in range(n_conv)]:
+        bad, listing = serial_object_oracle(c)
+        for sig, what in bad: chk.fail(sig, what, c)
+        chk.count('serial-object:%s' % ('analytical+conversion+simulation' if c.get('T') else 'conversion'))
+        chk.count('serial-object:node-list-%s' % listing); chk.count('serial-object:labels=%s' % c['labels'])
+        chk.case(c, len(c['chain']) >= 3 and (listing != 'upstream-first' or c['labels'] != 'N..1'))
 
 
 DS_ATTRS = {'N': dict(mean=[5, 20, 50], standard_deviation=[0.5, 1, 2, 7.5]), 'P': dict(mean=[2, 4.5, 9]), 'UD': dict(lo=[0, 2], hi=[5, 9]),
@@ -353,12 +560,18 @@ def run(chk):
             imp = [(R[1]['IL'], R[1]['supp'][None]['OO'], R[1]['TC']) for R in r['recs']]
             if mod != imp:
                 chk.mismatch('NW1 run %r vs implementation %r' % (jsonable(mod[:6]), jsonable(imp[:6])), c)
-        nontriv = nd['slt'] >= 1 and any(R[1]['IL'] < 0 for R in r['recs']) and any(R[1]['IL'] > 0 for R in r['recs'])
-        chk.count('L=%d' % nd['slt']); chk.case(c, nontriv, simlib.case_key(c))
-    demand_source_stream(chk, 60 if quick else 600)
-    expectation_stream(chk, 20 if quick else 200)
-    analytic_stream(chk, 60 if quick else 600)
-    statistical(chk, 6000 if quick else 40000, 3 if quick else 10)
+        nontriv = nd['slt'] + nd['olt'] >= 1 and any(R[1]['IL'] < 0 for R in r['recs']) and any(R[1]['IL'] > 0 for R in r['recs'])
+        chk.count('L=%d' % nd['slt']); chk.count('order-lead-time=%d' % nd['olt']); chk.case(c, nontriv, simlib.case_key(c))
+    import time
+    secs = chk.extra.setdefault('stream_seconds', {}); t0 = time.time()
+    def lap(name):
+        nonlocal t0
+        secs[name] = round(time.time() - t0, 1); t0 = time.time()
+    demand_source_stream(chk, 60 if quick else 600); lap('demand-source')
+    expectation_stream(chk, 20 if quick else 200); lap('expectation')
+    analytic_stream(chk, 60 if quick else 600); lap('analytic')
+    serial_object_stream(chk, 12 if quick else 80, 60 if quick else 600); lap('serial-object')
+    statistical(chk, 6000 if quick else 40000, 3 if quick else 10); lap('statistical')
     if (chk.broken or chk.mismatches) and not chk.fails:
         for _ in range(10 * n):
             c = single_case(chk.rng)
@@ -374,6 +587,11 @@ def replay(chk, rp):
     c = rp['case']
     if c.get('stream') == 'statistical':
         print('statistical case: re-run ./check C15 --tier quick with the same seed to reproduce'); return
+    if c.get('stream') == 'serial-object':
+        bad, _ = serial_object_oracle(c)
+        for sig, what in bad:
+            print(sig, '::', what); chk.fail(sig, what, c)
+        chk.case(c); return
     if c.get('stream') == 'analytic':
         print('analytic case: re-run ./check C15 --tier quick with the same seed to reproduce (deterministic)'); return
     if c.get('stream') == 'expectation':
